@@ -174,7 +174,7 @@ Definition nth_or {A} (d : A) (l : list A) (i : nat) : A := nth i l d.
 
 Definition date_ok (cfg : config) (t : Z) : bool :=
   match c_dates cfg with
-  | Some ds => zmem (Z.quot t 86400 * 86400) ds      (* int(t / 86400) * 86400 *)
+  | Some ds => zmem (t / 86400 * 86400) ds      (* int(np.floor(t / 86400)) * 86400: the start of t's UTC day, also before 1970 *)
   | None => true
   end.
 Definition tod_ok (cfg : config) (t : Z) : bool :=
